@@ -16,30 +16,35 @@ Record conf := mkConf { c_f : N; c_pc : N; c_env : env; c_orc : list N; c_stack 
 Inductive outcome :=
 | Next (c : conf)
 | Done (vs : list val)      (* the entry function returned vs *)
+| Halted                    (* IHalt: the run is outside the scope of the reading *)
 | Bad (site : N)            (* nil dereference (IUse) or forbidden store (IStore) at the site *)
 | Stuck.                    (* malformed program: excluded by the checker *)
 
 Definition pop (o : list N) : N * list N := match o with [] => (0, []) | k :: o' => (k, o') end.
 
-Definition pick (k : N) (dirty : bool) : val :=
-  match k with 0 => VNil | 1 => if dirty then VTNil else VPtr | _ => VPtr end.
+(* k = 0: nil; k = 1: usable; k >= 2 (dirty cells only): a typed nil of the (k-2)-th possible type *)
+Definition pick (tn : list N) (k : N) (dirty : bool) : val :=
+  if N.eqb k 0 then VNil
+  else if N.eqb k 1 then VPtr
+  else if dirty then match nth_error tn (N.to_nat (k - 2)) with Some t => VTNil t | None => VPtr end
+  else VPtr.
 
-Definition conv (v : val) : val := match v with VNil => VTNil | _ => v end.
-Definition normalize (v : val) : val := match v with VTNil => VNil | _ => v end.
+Definition conv (t : N) (v : val) : val := match v with VNil => VTNil t | _ => v end.
+Definition normalize (v : val) : val := match v with VTNil _ => VNil | _ => v end.
 Definition assertv (toiface : bool) (v : val) : val :=
-  match v with VPtr => VPtr | VTNil => if toiface then VTNil else VNil | VNil => VNil end.
+  match v with VPtr => VPtr | VTNil t => if toiface then VTNil t else VNil | VNil => VNil end.
 
 Definition eval_arg (e : env) (a : arg) : val :=
   match a with AV x => e x | AGood => VPtr | ANil => VNil end.
 
-Definition eval_rhs (e : env) (r : rhs) (o : list N) : val * list N :=
+Definition eval_rhs (tn : list N) (e : env) (r : rhs) (o : list N) : val * list N :=
   match r with
   | RAlloc => (VPtr, o)
   | RNil => (VNil, o)
   | RCopy y => (e y, o)
-  | RUnknown => let '(k, o') := pop o in (pick k false, o')
-  | RUnknownDirty => let '(k, o') := pop o in (pick k true, o')
-  | RConv y => (conv (e y), o)
+  | RUnknown => let '(k, o') := pop o in (pick tn k false, o')
+  | RUnknownDirty => let '(k, o') := pop o in (pick tn k true, o')
+  | RConv y t => (conv t (e y), o)
   | RNormalize y => (normalize (e y), o)
   | RAssert y ti => (assertv ti (e y), o)
   end.
@@ -50,8 +55,8 @@ Definition store_bad (c03 : bool) (m : smode) (v : val) : bool :=
   match m, v with
   | SStrict, VPtr => false
   | SStrict, _ => true
-  | SClean, VTNil => true
-  | SDirty, VTNil => c03
+  | SClean, VTNil _ => true
+  | SDirty, VTNil _ => c03
   | _, _ => false
   end.
 
@@ -71,13 +76,16 @@ Definition step (c03 : bool) (p : prog) (c : conf) : outcome :=
   let e := c_env c in
   let goto pc e' o := Next (mkConf (c_f c) pc e' o (c_stack c)) in
   match nd_instr nd with
-  | ISet x r n => let '(v, o) := eval_rhs e r (c_orc c) in goto n (upd e x v) o
+  | ISet x r n => let '(v, o) := eval_rhs (p_tn p) e r (c_orc c) in goto n (upd e x v) o
   | IGuard x n1 n2 => match e x with VNil => goto n2 e (c_orc c) | _ => goto n1 e (c_orc c) end
-  | ITypeTest x y ti n1 n2 =>
-      match e y with
-      | VNil => goto n2 (upd e x VNil) (c_orc c)
-      | v => let '(k, o) := pop (c_orc c) in
-             if N.eqb k 0 then goto n2 (upd e x VNil) o else goto n1 (upd e x (assertv ti v)) o
+  | ITypeTest x y ti tgt n1 n2 =>
+      let test v := let '(k, o) := pop (c_orc c) in
+                    if N.eqb k 0 then goto n2 (upd e x VNil) o else goto n1 (upd e x (assertv ti v)) o in
+      match e y, tgt with
+      | VNil, _ => goto n2 (upd e x VNil) (c_orc c)
+      | VTNil t, Some T => if N.eqb t T then goto n1 (upd e x (assertv ti (VTNil t))) (c_orc c)
+                           else goto n2 (upd e x VNil) (c_orc c)
+      | v, _ => test v
       end
   | IUse x s n => match e x with VPtr => goto n e (c_orc c) | _ => Bad s end
   | IStore x m s n => if store_bad c03 m (e x) then Bad s else goto n e (c_orc c)
@@ -91,9 +99,10 @@ Definition step (c03 : bool) (p : prog) (c : conf) : outcome :=
       | [] => Done vs
       | fr :: stk => Next (mkConf (fr_f fr) (fr_pc fr) (assign (fr_rets fr) vs (fr_env fr)) (c_orc c) stk)
       end
+  | IHalt => Halted
   end end end.
 
-(* n steps; a final outcome (Done, Bad, Stuck) is kept *)
+(* n steps; a final outcome (Done, Halted, Bad, Stuck) is kept *)
 Fixpoint run (c03 : bool) (p : prog) (n : nat) (c : conf) : outcome :=
   match n with
   | O => Next c
